@@ -633,8 +633,8 @@ def units(tier: str, seed: int) -> list[Unit]:
         us.append(Unit(f"stalls-{sh}", unit_stalls, {"shard": sh, "nshards": nsh}))
     for i, shape in enumerate(cancel_shapes()):
         us.append(Unit(f"cancel-{i}", unit_cancel, {"shape": shape, "kmax": 45 if tier == "quick" else 120}))
-    n = 150 if tier == "quick" else 6000
-    for i in range(6):
+    n = 150 if tier == "quick" else 25000
+    for i in range(6 if tier == "quick" else 12):
         us.append(Unit(f"sampled{i}", unit_sampled, {"n": n, "offset": i}))
     return us
 
